@@ -121,7 +121,7 @@ Inductive delivery :=
 
 (* handleWatchEvent, before anything else:
      if staleObj, stale := object.(cache.DeletedFinalStateUnknown); stale { object = staleObj.Obj }
-     obj := object.(*unstructured.Unstructured)
+     obj := object.( *unstructured.Unstructured )
    for every event type alike; Key is not used (resourceId(obj) is computed from Obj) *)
 Definition unwrap (d : delivery) : json :=
   match d with
